@@ -122,7 +122,9 @@ func (m *mModel) kindEntries(kind string) []*mEntry {
 func (m *mModel) add(e mEntry) { m.entries = append(m.entries, e) }
 
 // setFirst implements "set the first entry matching to ..., remove all other matching entries; add if none".
-func (m *mModel) setFirst(kind string, match func(e *mEntry) bool, update func(e *mEntry), fresh mEntry) {
+// preserve: the operation documents that the updated line keeps its comments (so the line stays
+// subject to the comment-survival check); otherwise the updated line counts as targeted.
+func (m *mModel) setFirst(kind string, preserve bool, match func(e *mEntry) bool, update func(e *mEntry), fresh mEntry) {
 	found := false
 	var out []mEntry
 	for _, e := range m.entries {
@@ -132,7 +134,9 @@ func (m *mModel) setFirst(kind string, match func(e *mEntry) bool, update func(e
 			}
 			found = true
 			update(&e)
-			e.touched = true
+			if !preserve {
+				e.touched = true
+			}
 		}
 		out = append(out, e)
 	}
@@ -349,11 +353,11 @@ func (m *mModel) apply(o mOp) {
 		m.toolchain = ""
 		m.scalarTouched["toolchain"] = true
 	case "AddGodebug":
-		m.setFirst("godebug", func(e *mEntry) bool { return e.a == o.a }, func(e *mEntry) { e.b = o.b }, mEntry{kind: "godebug", a: o.a, b: o.b})
+		m.setFirst("godebug", true, func(e *mEntry) bool { return e.a == o.a }, func(e *mEntry) { e.b = o.b }, mEntry{kind: "godebug", a: o.a, b: o.b})
 	case "DropGodebug":
 		m.filter("godebug", func(e *mEntry) bool { return e.a != o.a })
 	case "AddRequire":
-		m.setFirst("require", func(e *mEntry) bool { return e.a == o.a }, func(e *mEntry) { e.b = o.b }, mEntry{kind: "require", a: o.a, b: o.b})
+		m.setFirst("require", true, func(e *mEntry) bool { return e.a == o.a }, func(e *mEntry) { e.b = o.b }, mEntry{kind: "require", a: o.a, b: o.b})
 	case "AddNewRequire":
 		m.add(mEntry{kind: "require", a: o.a, b: o.b, indirect: o.flag})
 	case "DropRequire":
@@ -370,7 +374,7 @@ func (m *mModel) apply(o mOp) {
 		m.filter("exclude", func(e *mEntry) bool { return !(e.a == o.a && e.b == o.b) })
 	case "AddReplace":
 		// an empty old version replaces all versions of the path
-		m.setFirst("replace", func(e *mEntry) bool { return e.a == o.a && (o.b == "" || e.b == o.b) },
+		m.setFirst("replace", false, func(e *mEntry) bool { return e.a == o.a && (o.b == "" || e.b == o.b) },
 			func(e *mEntry) { e.a, e.b, e.c, e.d = o.a, o.b, o.c, o.d }, mEntry{kind: "replace", a: o.a, b: o.b, c: o.c, d: o.d})
 	case "DropReplace":
 		m.filter("replace", func(e *mEntry) bool { return !(e.a == o.a && e.b == o.b) })
@@ -406,7 +410,8 @@ func (m *mModel) apply(o mOp) {
 					continue
 				}
 				seen[e.a] = true
-				e.b, e.indirect, e.touched = w.b, w.indirect, true
+				// documented: line comment contents are preserved for the first requirement on each path
+				e.b, e.indirect = w.b, w.indirect
 			}
 			out = append(out, e)
 		}
@@ -418,7 +423,7 @@ func (m *mModel) apply(o mOp) {
 		}
 		m.removeDups()
 	case "AddUse":
-		m.setFirst("use", func(e *mEntry) bool { return e.a == o.a }, func(e *mEntry) {}, mEntry{kind: "use", a: o.a})
+		m.setFirst("use", false, func(e *mEntry) bool { return e.a == o.a }, func(e *mEntry) {}, mEntry{kind: "use", a: o.a})
 	case "AddNewUse":
 		m.add(mEntry{kind: "use", a: o.a})
 	case "DropUse":
